@@ -11,6 +11,8 @@ parser tokens); the arithmetic that turns them into char offsets is what is mode
 * (a) `harper-tree-sitter/src/lib.rs:byte_spans_to_char_spans` (sort, retain, byte→char loop);
 * (b) `harper-core/src/mask/mod.rs` (`push_allowed`, `merge_whitespace_sep`) and
       `harper-core/src/parsers/mask.rs` (`Mask::parse`);
+* (b2) `harper-comments/src/masker.rs` (`CommentMasker::create_mask`: the ignore-marker filter and
+      `Mask::from_iter`);
 * (c) `harper-comments/src/comment_parsers/{mod,unit,jsdoc,javadoc,go}.rs` (`without_initiators`, the per-line
       leader stripping of `Unit::parse` / `JsDoc::parse`, `mark_inline_tags`/`parse_inline_tag`,
       `JavaDoc::parse` with its block-tag loop, `Go::parse` with its directive handling);
@@ -159,6 +161,65 @@ def maskLoop (src : List Char) (inner : List Char → List Tok) :
 def maskParse (src : List Char) (mask : List Span) (inner : List Char → List Tok) :
     Except Panic (List Tok) :=
   maskLoop src inner none mask
+
+/-! ## (b2) `CommentMasker` (`harper-comments/src/masker.rs`) -/
+
+/-- `str::contains(pat)`: `pat` occurs as a contiguous run of characters (the patterns are ASCII, so
+the byte-wise search of `str` and this character-wise search agree on well-formed UTF-8) -/
+def containsSub (pat : List Char) : List Char → Bool
+  | [] => pat.isEmpty
+  | c :: cs => pat.isPrefixOf (c :: cs) || containsSub pat cs
+
+/-- the eight `text.contains("…")` literals of `CommentMasker::new`, in source order -/
+def ignoreMarkers : List (List Char) := [
+  ['s','p','e','l','l','c','h','e','c','k','e','r',':','i','g','n','o','r','e'],
+  ['s','p','e','l','l','c','h','e','c','k','e','r',':',' ','i','g','n','o','r','e'],
+  ['s','p','e','l','l','-','c','h','e','c','k','e','r',':','i','g','n','o','r','e'],
+  ['s','p','e','l','l','-','c','h','e','c','k','e','r',':',' ','i','g','n','o','r','e'],
+  ['s','p','e','l','l','c','h','e','c','k',':','i','g','n','o','r','e'],
+  ['s','p','e','l','l','c','h','e','c','k',':',' ','i','g','n','o','r','e'],
+  ['h','a','r','p','e','r',':','i','g','n','o','r','e'],
+  ['h','a','r','p','e','r',':',' ','i','g','n','o','r','e']]
+
+/-- the default `ignore_condition` of `CommentMasker::new`: one of the eight markers anywhere in the
+text of the allowed span, or the text starts with `#!` (a shebang line) -/
+def ignoreCondition (text : List Char) : Bool :=
+  ignoreMarkers.any (fun mk => containsSub mk text) || ['#', '!'].isPrefixOf text
+
+/-- `.iter_allowed(source).map(..).filter(|(_, text)| !ignore(text)).map(|(span, _)| span)`:
+`iter_allowed` takes `span.get_content(source)` of every allowed span (a panic value); a span whose
+text satisfies the ignore condition is dropped, the others are kept in order -/
+def ignoreFilter (ign : List Char → Bool) (src : List Char) : List Span → Except Panic (List Span)
+  | [] => .ok []
+  | s :: rest => do
+    let c ← s.getContent src
+    let r ← ignoreFilter ign src rest
+    pure (if ign c then r else s :: r)
+
+/-- `allowed.is_sorted_by(|a, b| a.end <= b.start)` -/
+def adjacentDisjoint : List Span → Bool
+  | a :: b :: rest => decide (a.stop ≤ b.start) && adjacentDisjoint (b :: rest)
+  | _ => true
+
+/-- `impl FromIterator<Span> for Mask`: stable sort by start, then the assertion; abutting spans are
+NOT fused here (unlike `push_allowed`) -/
+def maskFromIter (spans : List Span) : Except Panic (List Span) :=
+  let sorted := sortByStart spans
+  if adjacentDisjoint sorted then .ok sorted else .error .assertFail
+
+/-- what `CommentMasker::create_mask` does with the inner masker's mask: filter, then `collect()` -/
+def commentFilter (ign : List Char → Bool) (src : List Char) (m : List Span) :
+    Except Panic (List Span) := do
+  let kept ← ignoreFilter ign src m
+  maskFromIter kept
+
+/-- `CommentMasker::create_mask` after the tree walk: `TreeSitterMasker::create_mask` (byte→char,
+`push_allowed`, `merge_whitespace_sep`) composed with the ignore filter. The filter sees the spans
+AFTER whitespace merging: a marker in one comment drops every comment merged into the same span. -/
+def commentMask (ign : List Char → Bool) (isWs : Char → Bool) (bs : List Nat) (src : List Char)
+    (ranges : List Span) : Except Panic (List Span) := do
+  let m ← treeSitterMask isWs bs src ranges
+  commentFilter ign src m
 
 /-! ## (c) comment leaders -/
 
